@@ -135,3 +135,23 @@ func VerifC15TileConvertZoom() {
 	vAssert(err2 != nil && len(r2) == 0, "same for the spatial-ID variant")
 	vReach("end")
 }
+
+// VerifC15Clearance: FitClearanceAroundExtendedSpatialID refuses a negative clearance (any ID) and,
+// for a non-negative clearance, any malformed ID — before any geodesy is computed.
+func VerifC15Clearance() {
+	s := vNondetString("s", 7)
+	r := vNondetFloat64("r")
+	vAssume(r == r)
+	which := vCase("which")
+	if which == 0 {
+		vAssume(r < 0)
+	} else {
+		vAssume(r >= 0)
+		vAssume(!vWF(s, 5))
+		vAssume(vZoomMax(s, 0, 3) && vZoomMax(s, 3, 3) && vIdxMax(s, 8))
+	}
+	hl, vl, err := FitClearanceAroundExtendedSpatialID(s, r)
+	vAssert(err != nil, "a negative clearance or a malformed ID is an error")
+	vAssert(hl == 0 && vl == 0, "and no layer counts are reported")
+	vReach("end")
+}
